@@ -39,7 +39,10 @@ def run(argv):
     try:
         facts = core.load_facts("dev")
         rep.deferred = True
+        facts.__dict__["touched"] = set()
         mod.check(facts, rep, tier)
+        for n in facts.__dict__.get("touched", ()):
+            rep.fn(n)
         if tier == "thorough" and not os.environ.get("SLX_REPO"):
             from . import thorough
 
